@@ -299,6 +299,10 @@ func (c *Collector) Fail(t Fatalfer, r Replay, signature string) {
 	}
 	r.Seed = seed()
 	r.Shard = shard()
+	if len(r.Message) > 3000 {
+		// (the calls carry the full case; a megabyte of padding in the message helps nobody)
+		r.Message = r.Message[:1500] + " ... [" + strconv.Itoa(len(r.Message)-3000) + " bytes omitted] ... " + r.Message[len(r.Message)-1500:]
+	}
 	name := fmt.Sprintf("%s-%s-s%d.json", c.Property, r.Check, shard())
 	if KeepGoing() {
 		c.mu.Lock()
